@@ -321,3 +321,34 @@ func stepEffects(evs []journal.Ev) []string {
 	flush()
 	return out
 }
+
+// preemptedWaitSig: the run armed the pre-emption points inside stream.wait() (right after it received a finish
+// token, before it acts on it - a place where go-dcp's goroutine is normally not descheduled) and some
+// goroutine was actually parked there. While it is parked, Close() can still see the "finished with end
+// event" flag unset and emit the second token, or a zero-delay rebalance can reopen the stream: the stale
+// token / flag then stops, kills or wedges the next session (hypothesis H6, confirmed). Violations of the listed
+// rules in such runs carry this signature (a known finding); in all other runs they stay "plain".
+const preemptedWaitSig = "wait-goroutine-preempted-around-its-finish-token"
+
+func markPreemptedWait(run *Run, res *Result, rules ...string) {
+	parked := false
+	for k := range res.Probes {
+		if strings.HasPrefix(k, "parked-at:stream.wait") {
+			parked = true
+		}
+	}
+	if !parked {
+		return
+	}
+	for i := range res.Violations {
+		v := &res.Violations[i]
+		if v.Sig != "plain" {
+			continue
+		}
+		for _, r := range rules {
+			if v.Rule == r {
+				v.Sig = preemptedWaitSig
+			}
+		}
+	}
+}
